@@ -527,6 +527,11 @@ class Alg:
             return self.opaque(op, a)
         raise EngineError("unknown op " + op)
 
+    def attach(self, other_path):
+        """view of another path's DAG (same input variables) inside this algebra: used to compare
+        the outputs of two branches of one function on the same symbolic input"""
+        return _Attached(self, other_path)
+
     def out(self, name):
         """numpy object array (rows x cols) of polynomials for output `name`"""
         import numpy as np
@@ -617,3 +622,30 @@ class Alg:
         for name, d in self.gen_desc.items():
             out[name] = "%s(%s)" % (d[0], ", ".join(str(x) for x in d[1:]))
         return out
+
+
+class _Attached:
+    def __init__(self, alg, path):
+        self.alg, self.path = alg, path
+        self.memo = {}
+        for n in path.nodes.values():
+            if n.op in ("var", "poison") and n.name not in alg.gen:
+                raise EngineError("attached path uses unknown variable " + n.name)
+
+    def P(self, nid):
+        alg = self.alg
+        saved_path, saved_memo = alg.path, alg.node_poly
+        alg.path, alg.node_poly = self.path, self.memo
+        try:
+            return alg.P(nid)
+        finally:
+            alg.path, alg.node_poly = saved_path, saved_memo
+
+    def out(self, name):
+        import numpy as np
+        o = self.path.outs[name]
+        m = np.empty((o.rows, o.cols), dtype=object)
+        for c in range(o.cols):
+            for r in range(o.rows):
+                m[r, c] = self.P(o.at(r, c))
+        return m
